@@ -386,7 +386,8 @@ def cellValuesWithBoundaries1D(phi, BC):
         phi,
         (BC.right.c.item()-phi[-1]*(-BC.right.a.item()/dx_end+BC.right.b.item()/2))/(BC.right.a.item()/dx_end+BC.right.b.item()/2)])
     else:
-        phiBC = np.hstack([phi[-1], phi, phi[0]])
+        # always floating point, as in the non-periodic branch and in 2D/3D
+        phiBC = np.asarray(np.hstack([phi[-1], phi, phi[0]]), dtype=float)
     return phiBC
 
 
